@@ -2,7 +2,7 @@
    observations).  Definitions only. *)
 From Coq Require Import List Arith Bool NArith ZArith.
 Import ListNotations.
-From SV Require Import C08.Syntax C08.Model C08.FSyntax C08.FModelTypes C08.FModelExpr C08.Corr.
+From SV Require Import C08.Syntax C08.Model C08.FSyntax C08.FModelTypes C08.FModelExpr C08.FModelDecl C08.Corr.
 
 Definition ofexpr_eqb (a b : option fexpr) : bool := opt_eqb fexpr_eqb a b.
 
@@ -31,7 +31,39 @@ Definition count_fwf (cs : list fexpr_case) : nat :=
 Definition fparse_case := (list nat * list tok * option fexpr)%type.
 Definition fparse_check (c : fparse_case) : N :=
   let '(tps, ts, back) := c in
-  if ofexpr_eqb (parse_fexpr tps ts) back then 0%N else 1%N.
+  if negb (ofexpr_eqb (parse_fexpr tps ts) back) then 1%N
+  else match parse_fexpr tps ts with
+       | Some e => if fwf tps e then 0%N else 2%N      (* every tree the parser produces is in the theorems' domain *)
+       | None => 0%N
+       end.
 Definition fparse_fails (cs : list fparse_case) : list (N * N) := collect fparse_check 0 cs.
 Definition count_accepted (cs : list fparse_case) : nat :=
   length (filter (fun c => match snd c with Some _ => true | None => false end) cs).
+
+(* ---- modules: (tokens of a source text, module the real parser reads (None = syntax errors), tokens of the
+   formatted text, module read back from it, flags computed in Python: some body in Known_C08, import conflict) *)
+Definition omodule_eqb (a b : option module) : bool := opt_eqb module_eqb a b.
+Definition omodname_eqb (a b : option modname) : bool := opt_eqb modname_eqb a b.
+Definition fmodule_case := (list tok * option module * option (list tok) * option module * bool * bool)%type.
+Definition fmodule_check (c : fmodule_case) : N :=
+  let '(ts, parsed, ptoks, back, kn, conflict) := c in
+  if negb (omodule_eqb (parse_module ts) parsed) then 1%N
+  else match parsed with
+       | None => 0%N
+       | Some m =>
+           match ptoks with
+           | None => 9%N
+           | Some pts =>
+               if negb (ftoks_eqb (fimpl_module m) pts) then 2%N
+               else if negb (omodule_eqb (parse_module pts) back) then 3%N
+               else if negb (module_ok m) then 4%N
+               else if negb (Bool.eqb (module_known m) kn) then 6%N
+               else if negb (module_known m) && negb (omodule_eqb back (Some (organise (fst m), snd m))) then 5%N
+               else if negb (Bool.eqb (import_conflict (fst m)) conflict) then 7%N
+               else if negb conflict
+                       && negb (forallb (fun i => forallb (fun n => omodname_eqb (resolve (organise (fst m)) n) (resolve (fst m) n)) (fst i)) (fst m))
+                    then 8%N
+               else 0%N
+           end
+       end.
+Definition fmodule_fails (cs : list fmodule_case) : list (N * N) := collect fmodule_check 0 cs.
